@@ -54,7 +54,9 @@ def panic_only_fns(db):
     P = set()
     for _ in range(3):
         for f in db.fns.values():
-            if f.id in P or not f.locals or base_ident(f.locals[0]) != "Result" or "JsError" not in f.locals[0]:
+            if f.id in P or not f.mentions("JsError") or not (f.mentions("PanicError") or f.mentions("js_expect")):
+                continue
+            if not f.locals or base_ident(f.locals[0]) != "Result" or "JsError" not in f.locals[0]:
                 continue
             ok = True
             found = False
